@@ -9,7 +9,9 @@ import Cog.Drv.XformDrv
 import Cog.Drv.BuilderDrv
 import Cog.Drv.SchemaStore
 import Cog.Drv.SemDrv
+import Cog.Drv.MergeDrv
 import Cog.Drv.EqualsDrv
+import Cog.Drv.ValidateDrv
 open Cog.Drv
 
 def handle (line : String) : String :=
@@ -17,6 +19,7 @@ def handle (line : String) : String :=
   match line.splitOn " " with
   | "omap" :: rest => omapLine (" ".intercalate rest)
   | "vir" :: rest => virLine (" ".intercalate rest)
+  | "consolidate" :: rest => consolidateLine (" ".intercalate rest)
   | "lpass" :: rest => lpassLine (" ".intercalate rest)
   | "chain" :: rest => chainLine (" ".intercalate rest)
   | "nf" :: rest => nfLine (" ".intercalate rest)
@@ -27,6 +30,7 @@ def handle (line : String) : String :=
   | "c16pred" :: rest => c16predLine (" ".intercalate rest)
   | "c16witness" :: rest => c16witnessLine (" ".intercalate rest)
   | "bstr" :: rest => bstrLine (" ".intercalate rest)
+  | "veneer" :: rest => veneerLine (" ".intercalate rest)
   | _ => "bad-request"
 
 /-- verbs that need the driver's schema store (IO) -/
@@ -36,6 +40,9 @@ def handleIO (line : String) : IO String := do
   | "defschemas" :: rest => defSchemas (" ".intercalate rest)
   | "godec" :: rest => godecLine (" ".intercalate rest)
   | "goequals" :: rest => goequalsLine (" ".intercalate rest)
+  | "govalidate" :: rest => govalidateLine (" ".intercalate rest)
+  | "gostrict" :: rest => gostrictLine (" ".intercalate rest)
+  | "c08hyp" :: rest => c08hypLine (" ".intercalate rest)
   | _ => return handle line
 
 partial def loop (h : IO.FS.Stream) (out : IO.FS.Stream) : IO Unit := do
